@@ -601,6 +601,21 @@ class OscarLoader(BaseLoader):
         cut_events = 0
         with open(self.PATH_OSCAR_, "r") as oscar_file:
             self._skip_lines(oscar_file)
+            # From here on only the selected events matter: keep their rows,
+            # so that the bookkeeping below can address the events relative
+            # to the first one that is read.
+            first_label = 0
+            if kwargs and "events" in self.optional_arguments_.keys():
+                if isinstance(kwargs["events"], int):
+                    event_start = event_end = kwargs["events"]
+                else:
+                    event_start, event_end = kwargs["events"]
+                self.num_output_per_event_ = self.num_output_per_event_[
+                    event_start : event_end + 1
+                ]
+                self.num_events_ = int(event_end - event_start + 1)
+            if len(self.num_output_per_event_) > 0:
+                first_label = int(self.num_output_per_event_[0, 0])
             for i in range(0, num_read_lines):
                 line = oscar_file.readline()
                 if not line:
@@ -626,7 +641,7 @@ class OscarLoader(BaseLoader):
                         )[0]
                         if len(data) != 0 or old_data_len == 0:
                             self.num_output_per_event_[len(particle_list)] = (
-                                len(particle_list),
+                                len(particle_list) + first_label,
                                 len(data),
                             )
                         else:
@@ -663,7 +678,6 @@ class OscarLoader(BaseLoader):
                         particle = Particle(self.oscar_format_, line_list)
                     data.append(particle)
         self.num_events_ = self.num_events_ - cut_events
-        # Correct num_output_per_event and num_events
         if not kwargs or "events" not in self.optional_arguments_.keys():
             if len(particle_list) != self.num_events_:
                 raise IndexError(
@@ -671,16 +685,6 @@ class OscarLoader(BaseLoader):
                     + "number of events specified by the comments in the "
                     + "OSCAR file!"
                 )
-        elif isinstance(kwargs["events"], int):
-            update = self.num_output_per_event_[kwargs["events"]]
-            self.num_output_per_event_ = np.array([update])
-            self.num_events_ = int(1)
-        elif isinstance(kwargs["events"], tuple):
-            event_start = kwargs["events"][0]
-            event_end = kwargs["events"][1]
-            update = self.num_output_per_event_[event_start : event_end + 1]
-            self.num_output_per_event_ = update
-            self.num_events_ = int(event_end - event_start + 1)
 
         if particle_list == []:
             particle_list = [[]]
